@@ -17,6 +17,7 @@ type MsgCase struct {
 	Inner    int // index used for tables deeper in the value
 	N        int // uniform list length
 	Mixed    int // >0: mixed shape number (lists get lengths by position)
+	PLen     int // >0: prefixed text has the concrete length PLen-1 (byte-sum frames: keeps the checksum terms closed)
 }
 
 func (mc MsgCase) ID() string {
@@ -30,6 +31,9 @@ func (mc MsgCase) ID() string {
 	s += fmt.Sprintf("/n=%d", mc.N)
 	if mc.Mixed > 0 {
 		s += fmt.Sprintf("/mix=%d", mc.Mixed)
+	}
+	if mc.PLen > 0 {
+		s += fmt.Sprintf("/plen=%d", mc.PLen-1)
 	}
 	return s
 }
@@ -111,18 +115,25 @@ func (c *Ctx) msgCases(ns []int, innerAll bool, mixed bool) []MsgCase {
 					}
 				}
 				for _, in := range inners {
-					lists, _, _ := c.treeInfo(mod, tn, k, in, 0)
+					lists, pstr, _ := c.treeInfo(mod, tn, k, in, 0)
+					if fi := c.frameInfo(mod, tn); innerAll && pstr && fi != nil && (fi.Alg == "SSE_BIN" || fi.Alg == "SZSE_BIN") {
+						// byte-sum frame carrying prefixed text: one item per concrete text length
+						for pl := 0; pl <= 12; pl++ {
+							out = append(out, MsgCase{Mod: mod, Typ: tn, Key: k, Inner: in, PLen: pl + 1})
+						}
+						continue
+					}
 					if lists == 0 {
-						out = append(out, MsgCase{mod, tn, k, in, 0, 0})
+						out = append(out, MsgCase{Mod: mod, Typ: tn, Key: k, Inner: in})
 						continue
 					}
 					for _, n := range ns {
-						out = append(out, MsgCase{mod, tn, k, in, n, 0})
+						out = append(out, MsgCase{Mod: mod, Typ: tn, Key: k, Inner: in, N: n})
 					}
 					if mixed && lists > 1 {
 						// mixed shapes: one list of length 1 or 2 at each position in turn, the rest empty; (1,1,0..)
 						for p := 1; p <= min(lists, 16); p++ {
-							out = append(out, MsgCase{mod, tn, k, in, 0, p})
+							out = append(out, MsgCase{Mod: mod, Typ: tn, Key: k, Inner: in, Mixed: p})
 						}
 					}
 				}
@@ -137,7 +148,7 @@ func (c *Ctx) newGen(mc MsgCase, dom string) *Gen {
 	if c.thorough() {
 		P = 12
 	}
-	g := &Gen{w: c.w, sc: c.sc, Dom: dom, P: P, Slack: 0}
+	g := &Gen{w: c.w, sc: c.sc, Dom: dom, P: P, Slack: 0, PLen: mc.PLen - 1}
 	if dom == "wide" {
 		g.Slack = 2
 	}
